@@ -78,31 +78,24 @@ LegalFrames(P) ==
   /\ P.nStore >= 0
 InFrame(P, fr, t) == IF TimeMode(P) /\ Bounded(fr) THEN t >= fr[1] /\ t < fr[2] ELSE t >= fr[1]
 
-(* --------------------- bins as dense indices 1..NB ---------------------- *)
-\* (tof, segment, axial position, view, tangential position), tof slowest
-TotAx(c) == LET RECURSIVE S(_)
-                S(s) == IF s > c.maxSeg THEN 0 ELSE NumAx(c, s) + S(s + 1)
-            IN S(c.minSeg)
-SegOff(c) == [s \in Segs(c) |-> LET RECURSIVE S(_)
-                                    S(u) == IF u >= s THEN 0 ELSE NumAx(c, u) + S(u + 1)
-                                IN S(c.minSeg)]
+(* ------------- histograms: [TOF bin][segment][index in segment] --------- *)
+\* the output is organised like the implementation's: one block per (TOF bin, segment)
 NTang(c) == c.maxTang - c.minTang + 1
 NViewsOf(c) == NV(c) \div c.mash
-NBins(c) == NumTof(c) * TotAx(c) * NViewsOf(c) * NTang(c)
+SegSize(c, seg) == NumAx(c, seg) * NViewsOf(c) * NTang(c)
 \* the event is kept: "inside the range we want to store" (segment and axial position are in range
 \* whenever the geometry finds a bin at all)
 Accepted(c, b) == b # NoBin /\ InTangRange(c, b) /\ b.tof >= MinTof(c) /\ b.tof <= MaxTof(c)
-IxOf(c, segOff, totAx, b) ==
-  ((((b.tof - MinTof(c)) * totAx + segOff[b.seg] + b.ax) * NViewsOf(c) + b.view) * NTang(c) + (b.tang - c.minTang)) + 1
-\* resolved event: index 0 = not kept
-Res(ix, seg, tof) == [ix |-> ix, seg |-> seg, tof |-> tof]
-NoRes == Res(0, 0, 0)
-Resolve(c, segOff, totAx, b) == IF Accepted(c, b) THEN Res(IxOf(c, segOff, totAx, b), b.seg, b.tof) ELSE NoRes
-ZeroHist(nb) == [i \in 1..nb |-> 0]
+JOf(c, b) == (b.ax * NViewsOf(c) + b.view) * NTang(c) + (b.tang - c.minTang) + 1
+\* resolved event: ok = FALSE: not kept
+Res(ok, tof, seg, j) == [ok |-> ok, tof |-> tof, seg |-> seg, j |-> j]
+NoRes == Res(FALSE, 0, 0, 0)
+Resolve(c, b) == IF Accepted(c, b) THEN Res(TRUE, b.tof, b.seg, JOf(c, b)) ELSE NoRes
+ZeroHist(c) == [k \in TofBins(c) |-> [sg \in Segs(c) |-> [j \in 1..SegSize(c, sg) |-> 0]]]
 
 (* ------------------------- ABSTRACT histogram --------------------------- *)
 \* s: stream, rs: resolved events (same length; NoRes at time marks)
-Kept(P, s, rs) == { i \in 1..Len(s) : IsEvent(s[i]) /\ rs[i].ix # 0 /\ IncOf(P, s[i]) # 0 }
+Kept(P, s, rs) == { i \in 1..Len(s) : IsEvent(s[i]) /\ rs[i].ok /\ IncOf(P, s[i]) # 0 }
 SumInc(P, s, I) == Cardinality({ i \in I : IncOf(P, s[i]) = 1 }) - Cardinality({ i \in I : IncOf(P, s[i]) = -1 })
 \* "for every event inside a requested time frame"
 FrameIdx(P, s, rs, fr) == { i \in Kept(P, s, rs) : InFrame(P, fr, TimeAt(s, i)) }
@@ -113,8 +106,12 @@ CountIdx(P, s, rs) == { i \in Kept(P, s, rs) : \A j \in Kept(P, s, rs) : j < i =
 StoredIdx(P, s, rs, f) == IF TimeMode(P) THEN FrameIdx(P, s, rs, Frames(P)[f]) ELSE CountIdx(P, s, rs)
 \* "adds exactly one count (minus one for delayed events when they are subtracted) to the bin that the
 \*  data geometry assigns to the event's detector pair and TOF index, and nothing else"
-HistOfIdx(P, s, rs, I, nb) == [ix \in 1..nb |-> SumInc(P, s, { i \in I : rs[i].ix = ix })]
-Hist(P, s, rs, f, nb) == HistOfIdx(P, s, rs, StoredIdx(P, s, rs, f), nb)
+\* I: the stored events
+HistOfIdx(P, s, rs, I) ==
+  [k \in TofBins(P.c) |-> [sg \in Segs(P.c) |-> [j \in 1..SegSize(P.c, sg) |->
+      SumInc(P, s, { i \in I : rs[i].tof = k /\ rs[i].seg = sg /\ rs[i].j = j })]]]
+Hist(P, s, rs, f) == HistOfIdx(P, s, rs, StoredIdx(P, s, rs, f))
+HistAt(P, s, rs, f, k, sg, j) == SumInc(P, s, { i \in StoredIdx(P, s, rs, f) : rs[i].tof = k /\ rs[i].seg = sg /\ rs[i].j = j })
 
 (* ------------------------------ batches --------------------------------- *)
 \* passes over the data: TOF ranges (outer) x segment ranges (inner), each of the size held in memory
@@ -132,25 +129,20 @@ InBatch(bt, seg, tof) == seg >= bt.s0 /\ seg <= bt.s1 /\ tof >= bt.t0 /\ tof <= 
 BatchesPartition(P) ==
   \A seg \in Segs(P.c) : \A tof \in TofBins(P.c) :
      Cardinality({ i \in 1..NumBatches(P) : InBatch(BatchAt(P, i), seg, tof) }) = 1
-\* (segment, TOF bin) of dense index ix, through a table computed once per geometry
-SegTofTable(c, segOff, totAx) ==
-  [ix \in 1..NBins(c) |->
-     LET q == (ix - 1) \div (NViewsOf(c) * NTang(c))         \* tofIdx * totAx + segOff + ax
-         tofI == q \div totAx
-         sa == q % totAx
-         seg == CHOOSE s \in Segs(c) : sa >= segOff[s] /\ sa < segOff[s] + NumAx(c, s)
-     IN << seg, MinTof(c) + tofI >>]
+\* the plan of one execution, computed once: the passes and the frames
+PlanOf(P) == [batches |-> [i \in 1..NumBatches(P) |-> BatchAt(P, i)], nbt |-> NumBatches(P),
+              frames |-> Frames(P), nfr |-> NumFrames(P)]
 
 (* ------------------- the machine (process_data) ------------------------- *)
 \* m.pc: newframe | batch | skip | savepos | fs | rewind1 | rewind2 | read | save | endframe
-M0(nb) == [pc |-> "newframe", f |-> 1, bi |-> 1, pos |-> 0, ct |-> 0, fct |-> 0, more |-> 0, empty |-> FALSE,
-           spos |-> 0, sid |-> 0, acc |-> ZeroHist(nb), out |-> ZeroHist(nb)]
+M0(c) == [pc |-> "newframe", f |-> 1, bi |-> 1, pos |-> 0, ct |-> 0, fct |-> 0, more |-> 0, empty |-> FALSE,
+          spos |-> 0, sid |-> 0, acc |-> ZeroHist(c), out |-> ZeroHist(c)]
 
 Ev(e, a, b, c, d) == << e, a, b, c, d >>
-\* the next call / hook event of a correct execution (L = length of the stream)
-Expected(P, L, m) ==
-  LET fr == Frames(P)[m.f]
-      bt == BatchAt(P, m.bi)
+\* the next call / hook event of a correct execution (T = PlanOf(P), L = length of the stream)
+Expected(T, L, m) ==
+  LET fr == T.frames[m.f]
+      bt == T.batches[m.bi]
       nextR == IF m.pos < L THEN m.pos + 1 ELSE 0
   IN CASE m.pc = "newframe" -> Ev("NewFrame", m.f, 0, 0, 0)
        [] m.pc = "batch" -> Ev("Batch", bt.s0, bt.s1, bt.t0, bt.t1)
@@ -163,13 +155,13 @@ Expected(P, L, m) ==
        [] m.pc = "rewind2" -> Ev("Rewind", m.f, 0, 0, 0)
        [] m.pc = "read" -> IF m.more = 0 \/ m.empty THEN Ev("Save", bt.s0, bt.s1, bt.t0, bt.t1) ELSE Ev("R", nextR, 0, 0, 0)
        [] m.pc = "save" -> Ev("Save", bt.s0, bt.s1, bt.t0, bt.t1)
-       [] m.pc = "endframe" -> IF m.f < NumFrames(P) THEN Ev("NewFrame", m.f + 1, 0, 0, 0) ELSE Ev("End", 0, 0, 0, 0)
+       [] m.pc = "endframe" -> IF m.f < T.nfr THEN Ev("NewFrame", m.f + 1, 0, 0, 0) ELSE Ev("End", 0, 0, 0, 0)
        [] OTHER -> Ev("None", 0, 0, 0, 0)
 
 \* effect of reading record `rec' (resolved to `rs') in the main loop
-ReadMain(P, m, rec, rs) ==
-  LET fr == Frames(P)[m.f]
-      bt == BatchAt(P, m.bi)
+ReadMain(P, T, m, rec, rs) ==
+  LET fr == T.frames[m.f]
+      bt == T.batches[m.bi]
       m1 == [m EXCEPT !.pos = @ + 1]
   IN IF IsTime(rec)
      THEN (IF Bounded(fr)
@@ -178,20 +170,20 @@ ReadMain(P, m, rec, rs) ==
                            !.pc = IF TimeMode(P) /\ MsOf(rec) >= fr[2] THEN "save" ELSE "read"]
            ELSE m1)
      ELSE LET inc == IncOf(P, rec) IN
-          IF rs.ix = 0 \/ inc = 0 THEN m1
+          IF ~rs.ok \/ inc = 0 THEN m1
           ELSE [m1 EXCEPT !.more = IF TimeMode(P) THEN @ ELSE @ - inc,       \* counted whether or not its segment is in memory
-                          !.acc = IF InBatch(bt, rs.seg, rs.tof) THEN [@ EXCEPT ![rs.ix] = @ + inc] ELSE @]
+                          !.acc = IF InBatch(bt, rs.seg, rs.tof) THEN [@ EXCEPT ![rs.tof][rs.seg][rs.j] = @ + inc] ELSE @]
 
-\* effect of event ev = Expected(P, L, m); rec/rs: the record served by an "R" with index > 0; id: the
-\* handle returned by save_get_position; stab: SegTofTable
-Apply(P, nb, stab, m, ev, rec, rs, id) ==
-  LET fr == Frames(P)[m.f]
-      bt == BatchAt(P, m.bi)
+\* effect of event ev = Expected(T, L, m); rec/rs: the record served by an "R" with index > 0; id: the
+\* handle returned by save_get_position
+Apply(P, T, m, ev, rec, rs, id) ==
+  LET fr == T.frames[m.f]
+      bt == T.batches[m.bi]
   IN CASE ev[1] = "NewFrame" ->
             [m EXCEPT !.pc = "batch", !.f = ev[2], !.bi = 1,
-                      !.out = IF P.fresh \/ ev[2] = 1 THEN ZeroHist(nb) ELSE @]
+                      !.out = IF P.fresh \/ ev[2] = 1 THEN ZeroHist(P.c) ELSE @]
        [] ev[1] = "Batch" ->
-            [m EXCEPT !.acc = ZeroHist(nb), !.more = IF TimeMode(P) THEN 1 ELSE P.nStore,
+            [m EXCEPT !.acc = ZeroHist(P.c), !.more = IF TimeMode(P) THEN 1 ELSE P.nStore,
                       !.pc = IF m.bi = 1 THEN "skip" ELSE "rewind1"]
        [] ev[1] = "R" /\ m.pc = "skip" ->
             IF ev[2] = 0 THEN [m EXCEPT !.pc = "savepos"]
@@ -204,33 +196,32 @@ Apply(P, nb, stab, m, ev, rec, rs, id) ==
        [] ev[1] = "St" -> [m EXCEPT !.pos = m.spos, !.pc = "rewind2"]
        [] ev[1] = "Rewind" -> [m EXCEPT !.ct = m.fct, !.pc = "read"]
        [] ev[1] = "R" /\ m.pc = "read" ->
-            IF ev[2] = 0 THEN [m EXCEPT !.pc = "save"] ELSE ReadMain(P, m, rec, rs)
+            IF ev[2] = 0 THEN [m EXCEPT !.pc = "save"] ELSE ReadMain(P, T, m, rec, rs)
        [] ev[1] = "Save" ->
             \* the segments held in memory replace those of the output; everything else is untouched
-            [m EXCEPT !.out = [ix \in 1..nb |-> IF InBatch(bt, stab[ix][1], stab[ix][2]) THEN m.acc[ix] ELSE m.out[ix]],
+            [m EXCEPT !.out = [k \in TofBins(P.c) |-> [sg \in Segs(P.c) |-> IF InBatch(bt, sg, k) THEN m.acc[k][sg] ELSE m.out[k][sg]]],
                       !.bi = @ + 1,
-                      !.pc = IF m.bi = NumBatches(P) THEN "endframe" ELSE "batch"]
+                      !.pc = IF m.bi = T.nbt THEN "endframe" ELSE "batch"]
        [] OTHER -> m
 
 (* ---------------------- properties of the machine ----------------------- *)
-\* bins already saved in frame m.f (batches 1..m.bi-1)
-SavedBins(P, nb, stab, m) == { ix \in 1..nb : \E i \in 1..(m.bi - 1) : InBatch(BatchAt(P, i), stab[ix][1], stab[ix][2]) }
+\* (TOF bin k, segment sg) was saved in frame m.f by one of the passes 1..m.bi-1
+IsSaved(T, m, k, sg) == \E i \in 1..(m.bi - 1) : InBatch(T.batches[i], sg, k)
 \* After k passes the output holds the abstract histogram of the frame in the segments / TOF bins saved so
 \* far; the rest is what it was when the frame started (`prev'): zero, or the previous frame's histogram.
-OutCorrect(P, s, rs, nb, stab, m, prev) ==
-  LET h == Hist(P, s, rs, m.f, nb)
-      sv == SavedBins(P, nb, stab, m)
-  IN \A ix \in 1..nb : m.out[ix] = IF ix \in sv THEN h[ix] ELSE prev[ix]
+\* h: the abstract histogram Hist(P, s, rs, m.f) of the frame
+OutCorrect(P, T, h, m, prev) ==
+  \A k \in TofBins(P.c) : \A sg \in Segs(P.c) : m.out[k][sg] = IF IsSaved(T, m, k, sg) THEN h[k][sg] ELSE prev[k][sg]
 
 \* "the frames of a partition of a time interval add up to the histogram of the whole interval"
 Contiguous(frs) == \A i \in 2..Len(frs) : frs[i][1] = frs[i - 1][2]
-PartitionAddsUp(P, s, rs, nb) ==
+WholeOf(P) == [P EXCEPT !.frames = << << P.frames[1][1], P.frames[Len(P.frames)][2] >> >>]
+RECURSIVE SumFrames(_, _, _, _, _, _, _)
+SumFrames(P, s, rs, f, k, sg, j) == IF f = 0 THEN 0 ELSE HistAt(P, s, rs, f, k, sg, j) + SumFrames(P, s, rs, f - 1, k, sg, j)
+PartitionAddsUp(P, s, rs) ==
   (TimeMode(P) /\ P.frames # <<>> /\ Contiguous(P.frames)) =>
-     LET whole == [P EXCEPT !.frames = << << P.frames[1][1], P.frames[Len(P.frames)][2] >> >>]
-         hw == Hist(whole, s, rs, 1, nb)
-         RECURSIVE SumF(_, _)
-         SumF(f, ix) == IF f = 0 THEN 0 ELSE Hist(P, s, rs, f, nb)[ix] + SumF(f - 1, ix)
-     IN \A ix \in 1..nb : hw[ix] = SumF(Len(P.frames), ix)
+     \A k \in TofBins(P.c) : \A sg \in Segs(P.c) : \A j \in 1..SegSize(P.c, sg) :
+        HistAt(WholeOf(P), s, rs, 1, k, sg, j) = SumFrames(P, s, rs, Len(P.frames), k, sg, j)
 
 (* -------------------- likelihood gradients (clause 2) ------------------- *)
 \* Both gradients are recorded in fixed point, round(v * 2^k) with k = 12.  They are computed by different
